@@ -298,6 +298,8 @@ def run(ctx):
     _component_rules(ctx, repo)
     _measurement_semantics_rule(ctx, repo)
     _conservation_rule(ctx, repo)
+    _lost_update_rule(ctx, repo)
+    _tracker_reset_rule(ctx, repo)
 
 
 def _recursion_forwarding(ctx, repo):
@@ -710,3 +712,121 @@ def _conservation_rule(ctx, repo):
     stale = set(DROP_TABLE) - used_table
     if stale:
         raise AnalysisError(f'C06.j: tabled drop sites not found any more: {sorted(stale)}')
+
+
+def _lost_update_rule(ctx, repo):
+    """C06.k - an accumulator filled by the transformer's nested helpers is consumed after the last statement that can still write to it."""
+    ctx.decided.append('C06.k accumulators shared between a transformer and its nested helper functions (replacement tables, deferred-measurement maps, routed-operation lists) are read out '
+                       'only after the last top-level statement that may still write them: no update is lost by being made after the table was applied')
+    ctx.rule('C06.k', 'no lost update: for every local list/dict/set of a transformer-package function that its nested functions write and that the function body itself reads, the last '
+             'top-level statement reading it is not earlier than the last top-level statement that may write it (directly, by calling a writing helper, or by handing one to a primitive)',
+             floor=4, style='MPT')
+    MUT = {'append', 'extend', 'insert', 'add', 'update', 'setdefault', 'pop', 'popitem', 'clear', 'remove', 'discard', 'sort'}
+
+    def base(t):
+        while isinstance(t, ast.Subscript):
+            t = t.value
+        return t.id if isinstance(t, ast.Name) else None
+
+    def writes(node, d):
+        for x in ast.walk(node):
+            if isinstance(x, ast.Call) and isinstance(x.func, ast.Attribute) and x.func.attr in MUT and base(x.func.value) == d:
+                return True
+            if isinstance(x, (ast.Assign, ast.AugAssign, ast.Delete)):
+                for t in (x.targets if not isinstance(x, ast.AugAssign) else [x.target]):
+                    if isinstance(t, ast.Subscript) and base(t) == d:
+                        return True
+        return False
+    n = 0
+    for m, cls, fn, qual in _functions(repo):
+        if m.rel.endswith('_test.py'):
+            continue
+        inner = [s for s in fn.body if isinstance(s, ast.FunctionDef)]
+        if not inner:
+            continue
+        conts = set()
+        for s in fn.body:
+            if isinstance(s, (ast.Assign, ast.AnnAssign)) and s.value is not None:
+                v = s.value
+                if isinstance(v, (ast.Dict, ast.List, ast.Set)) or (isinstance(v, ast.Call) and (call_name(v) or '').split('.')[-1] in ('dict', 'list', 'set', 'defaultdict')):
+                    for t in (s.targets if isinstance(s, ast.Assign) else [s.target]):
+                        if isinstance(t, ast.Name):
+                            conts.add(t.id)
+        for d in sorted(conts):
+            wr = {f.name for f in inner if writes(f, d)}
+            if not wr:
+                continue
+            grew = True
+            while grew:
+                grew = False
+                for f in inner:
+                    if f.name not in wr and any(isinstance(x, ast.Name) and x.id in wr for x in ast.walk(f)):
+                        wr.add(f.name)
+                        grew = True
+            last_w = last_r = None
+            for s in fn.body:
+                if isinstance(s, ast.FunctionDef):
+                    continue
+                if writes(s, d) or any(isinstance(x, ast.Name) and x.id in wr for x in ast.walk(s)):
+                    last_w = s
+                if any(isinstance(x, ast.Name) and x.id == d and isinstance(x.ctx, ast.Load) for x in ast.walk(s)):
+                    last_r = s
+            if last_r is None or last_w is None:
+                continue  # working state of the helpers only: nothing is read out at top level
+            n += 1
+            ok = fn.body.index(last_w) <= fn.body.index(last_r)
+            ctx.ob('C06.k', f'{qual}:{d}', ok, '' if ok else f'`{ast.unparse(last_w)[:60]}` (line {last_w.lineno}) can still write `{d}` through {sorted(wr)}, but `{d}` was read out for the last '
+                   f'time at line {last_r.lineno}: whatever the later step records is never applied to the circuit', m.rel, last_w.lineno)
+    if n == 0:
+        raise AnalysisError('C06.k: no accumulator shared with nested helpers found')
+
+
+def _tracker_reset_rule(ctx, repo):
+    """C06.l - eject_z: the 'last PhasedXZ on this qubit' tracker is invalidated for the qubits of every operation the callback sees."""
+    ctx.decided.append('C06.l eject_z: every path through the per-operation callback invalidates (or rewrites) the last-PhasedXZ tracker of the operation\'s qubits, so a phase dumped later '
+                       'is never folded back into a PhasedXZ gate that an intervening operation separates from the end of the wire')
+    ctx.rule('C06.l', 'tracker invalidation: in eject_z, along every path of map_func from entry to a return, a statement writes the tracker created as defaultdict(lambda: None) (an update / '
+             'item store, or a call of a nested helper that stores into it)', floor=4, style='MPT')
+    m = repo.module('cirq-core/cirq/transformers/eject_z.py')
+    fn = m.defs.get('eject_z')
+    if fn is None:
+        raise AnalysisError('eject_z vanished')
+    trackers = []
+    for s in fn.body:
+        if isinstance(s, (ast.Assign, ast.AnnAssign)) and s.value is not None and isinstance(s.value, ast.Call) and (call_name(s.value) or '').split('.')[-1] == 'defaultdict' \
+                and s.value.args and isinstance(s.value.args[0], ast.Lambda) and isinstance(s.value.args[0].body, ast.Constant) and s.value.args[0].body.value is None:
+            t = s.targets[0] if isinstance(s, ast.Assign) else s.target
+            if isinstance(t, ast.Name):
+                trackers.append(t.id)
+    inner = {s.name: s for s in fn.body if isinstance(s, ast.FunctionDef)}
+    cb = [f for f in inner.values() if len(f.args.args) == 2]  # (op, moment_index) callback handed to map_operations
+    if len(trackers) != 1 or len(cb) != 1:
+        raise AnalysisError(f'eject_z: tracker / callback not identified (trackers={trackers}, callbacks={[f.name for f in cb]})')
+    d, cbf = trackers[0], cb[0]
+
+    def stores(node):
+        for x in ast.walk(node):
+            if isinstance(x, ast.Call) and isinstance(x.func, ast.Attribute) and x.func.attr in ('update', 'clear', 'pop', 'setdefault', '__setitem__') and isinstance(x.func.value, ast.Name) \
+                    and x.func.value.id == d:
+                return True
+            if isinstance(x, (ast.Assign, ast.Delete)):
+                for t in x.targets:
+                    if isinstance(t, ast.Subscript) and isinstance(t.value, ast.Name) and t.value.id == d:
+                        return True
+        return False
+    helpers = {n_ for n_, f in inner.items() if f is not cbf and stores(f)}
+
+    def hit(node):
+        if not isinstance(node, (ast.stmt, ast.expr)):
+            return False
+        return stores(node) or any(isinstance(c, ast.Call) and isinstance(c.func, ast.Name) and c.func.id in helpers for c in ast.walk(node))
+    w = PathWalker(lambda node, st: [True] if (st or hit(node)) else [st])
+    exits = w.run(cbf, False)
+    k = 0
+    for kind, st, node in exits:
+        if kind == 'raise':
+            continue
+        k += 1
+        ctx.ob('C06.l', f'cirq.transformers.eject_z.eject_z.{cbf.name}:exit#{k}', bool(st), '' if st else
+               f'the path leaving {cbf.name} at line {getattr(node, "lineno", cbf.lineno)} never touches `{d}`: the entry of an earlier PhasedXZ gate on these qubits stays live, and a phase '
+               'dumped at the end of the circuit is folded into that gate although this operation sits in between', m.rel, getattr(node, 'lineno', cbf.lineno))
